@@ -10,7 +10,7 @@ REAL domain with path forking, real code from LLVM IR.
      solver), chains and clusters of simultaneous overlaps among 3 particles: on every path total mass and momentum are
      preserved as identities in independent symbolic masses/velocities (no particle lost, duplicated or merged twice), N drops
      by the number of mergers, and the memory model sees no out-of-bounds access."""
-import sys, os, time, ctypes, itertools
+import sys, os, time, ctypes, itertools, math
 sys.path.insert(0, os.path.dirname(os.path.dirname(os.path.abspath(__file__))))
 import z3
 from llsym import build
@@ -286,10 +286,120 @@ def native_resolve(u, geo, ms, ws):
             ns.free()
     return False, "no shuffle among 400 seeds violates conservation natively"
 
+def run_hardsphere(u):
+    """reb_collision_resolve_hardsphere on an overlapping, approaching pair with symbolic positions, velocities, masses and radii (restitution 1,
+    minimum_collision_velocity 0): momentum conserved, kinetic energy conserved, the pair separates afterwards.  atan2 is an atom with its
+    defining relations (h sin = y, h cos = x, h = sqrt(x^2+y^2) > 0); the momentum obligations need none of them."""
+    rep = Report(); label = "hard-sphere bounce "
+    prover = Prover(t_inproc_ms=u.get('t_ms', 30000), t_ext_s=60, use_external=u.get('ext', True))
+    L = build.layout(); C6 = ['x', 'y', 'z', 'vx', 'vy', 'vz']
+    def run(ctx):
+        dom = Real(); I = new_interp(dom, ctx); I.concrete_env = True
+        sim = Sim(I); V = {}
+        for i in range(2): sim.add(m=1.0)
+        for i in range(2):
+            for c in C6 + ['m', 'r']:
+                if i == 1 and c in C6 and u.get('origin', True):
+                    V[(i, c)] = z3.RealVal(0); sim.particle(i).set(c, dom.const(0.0)); continue          # second particle at rest at the origin (Galilean frame of the pair)
+                V[(i, c)] = dom.fresh('%s%d' % (c, i)); sim.particle(i).set(c, V[(i, c)])
+            ctx.assume(V[(i, 'm')] > 0); ctx.assume(V[(i, 'r')] > 0)
+            sim.particle(i).set('last_collision', dom.const(-1.0))
+        sim.set('t', dom.const(1.0)); sim.set('minimum_collision_velocity', dom.const(0.0))
+        trig = []
+        def atan2_stub(I_, y, x):
+            y_, x_ = dom.z(y), dom.z(x)
+            th = dom.fresh('theta'); sn, cs = dom.sincos(dom.z(th)); h = dom.fresh('hyp')
+            # defining relations of atan2 away from the origin
+            dom.axioms.append(z3.Implies(z3.Or(x_ != 0, y_ != 0), z3.And(h > 0, h * h == x_ * x_ + y_ * y_, h * sn == y_, h * cs == x_)))
+            dom.axioms.append(z3.Implies(z3.And(x_ == 0, y_ == 0), z3.And(sn == 0, cs == 1)))
+            trig.append((th, h)); return th
+        I.stubs['@atan2'] = atan2_stub
+        col = I.mem.alloc(L.structs['reb_collision']['size'], 'collision', 'harness', zero=True)
+        cv = SimView(I, col, 'reb_collision'); cv.set('p1', 0); cv.set('p2', 1)
+        ret = I.call('@reb_collision_resolve_hardsphere', [sim.ptr, col])
+        return I, dom, sim, V, ret
+    ex = Explorer(run, max_paths=64, timeout_ms=4000)
+    try: ex.explore()
+    except BoundExceeded as e: rep.bound_exceeded.append(label + str(e))
+    rep.queries += ex.nqueries; rep.solver_time += ex.qtime
+    bounced = 0
+    for ctx, (I, dom, sim, V, ret) in ex.results:
+        rep.paths += 1; rep.add_interp(I)
+        ob = Obligations(rep, prover, label + "path%d " % rep.paths)
+        pc = list(ctx.pc) + [b != 0 for b in dom.divs]
+        allv = [v for v in V.values() if not z3.is_rational_value(v)]
+        def on_sat(model):
+            vals = {str(t): float(model_value(model, t)) for t in allv}
+            ok, detail = native_hardsphere(vals)
+            return ok, 'C13:hardsphere', detail, dict(kind='hardsphere', vals=vals)
+        new = {(i, c): dom.z(sim.particle(i).get(c)) for i in range(2) for c in C6}
+        for c in ('vx', 'vy', 'vz'):
+            ob.prove("momentum %s conserved" % c, V[(0, 'm')] * new[(0, c)] + V[(1, 'm')] * new[(1, c)] == V[(0, 'm')] * V[(0, c)] + V[(1, 'm')] * V[(1, c)], pc, axioms=dom.axioms, on_sat=on_sat, domain='REAL')
+        for i in range(2):
+            for c in ('x', 'y', 'z'): ob.prove("position %s%d untouched" % (c, i), new[(i, c)] == V[(i, c)], pc, on_sat=on_sat, domain='REAL')
+        changed = any(not z3.simplify(new[(0, c)] - V[(0, c)] == 0).eq(z3.BoolVal(True)) for c in ('vx', 'vy', 'vz'))
+        if changed:
+            bounced += 1
+            d = [V[(0, c)] - V[(1, c)] for c in ('x', 'y', 'z')]
+            dv0 = [V[(0, c)] - V[(1, c)] for c in ('vx', 'vy', 'vz')]; dv1 = [new[(0, c)] - new[(1, c)] for c in ('vx', 'vy', 'vz')]
+            ob.prove("the pair separates afterwards: relative velocity . relative position >= 0", sum(a * b for a, b in zip(d, dv1)) >= 0, pc, axioms=dom.axioms, on_sat=on_sat, domain='REAL (atan2 by its defining relations)')
+            ob.prove("restitution 1: the normal relative velocity is reversed (d . dv' == -d . dv)", sum(a * b for a, b in zip(d, dv1)) == -sum(a * b for a, b in zip(d, dv0)), pc, axioms=dom.axioms, on_sat=on_sat, domain='REAL (atan2 by its defining relations)')
+            ke = lambda vv: sum(V[(i, 'm')] * vv[(i, c)] * vv[(i, c)] for i in range(2) for c in ('vx', 'vy', 'vz'))
+            ob.prove("restitution 1: kinetic energy conserved", ke(new) == ke(V), pc, axioms=dom.axioms, on_sat=on_sat, domain='REAL (atan2 by its defining relations)')
+        else:
+            # no bounce: only legitimate when the pair does not overlap or is not approaching
+            d = [V[(0, c)] - V[(1, c)] for c in ('x', 'y', 'z')]; dv0 = [V[(0, c)] - V[(1, c)] for c in ('vx', 'vy', 'vz')]
+            rp = V[(0, 'r')] + V[(1, 'r')]
+            ob.prove("left alone only if not overlapping, not approaching, or without a normal velocity component", z3.Or(rp * rp < sum(a * a for a in d), sum(a * b for a, b in zip(d, dv0)) >= 0), pc, axioms=dom.axioms, on_sat=on_sat, domain='REAL')
+        ob.witness("path", pc, axioms=dom.axioms)
+    if not bounced: rep.vacuous.append(label + "no path performed a bounce")
+    return rep
+
+def native_hardsphere(vals):
+    N_ = nat(); L = N_.L; ns = N_.create()
+    try:
+        for i in range(2): ns.add(m=1.0)
+        g = lambda k, d=0.0: float(vals.get(k, d))
+        for i in range(2):
+            for c in ('x', 'y', 'z', 'vx', 'vy', 'vz'): ns.particle(i).set(c, g('%s%d' % (c, i)))
+            ns.particle(i).set('m', g('m%d' % i, 1.0)); ns.particle(i).set('r', g('r%d' % i, 1.0)); ns.particle(i).set('last_collision', -1.0)
+        ns.set('t', 1.0)
+        class Col(ctypes.Structure): _fields_ = [('b', ctypes.c_char * L.structs['reb_collision']['size'])]
+        col = Col(); cv = NView(N_, ctypes.addressof(col), 'reb_collision'); cv.set('p1', 0); cv.set('p2', 1)
+        f = N_.lib.reb_collision_resolve_hardsphere; f.restype = ctypes.c_int; f.argtypes = [ctypes.c_void_p, Col]
+        f(ns.addr, col)
+        P = [{c: ns.particle(i).get(c) for c in ('x', 'y', 'z', 'vx', 'vy', 'vz')} for i in range(2)]
+        m = [g('m0', 1.0), g('m1', 1.0)]; bad = []
+        v0 = [{c: g('%s%d' % (c, i)) for c in ('x', 'y', 'z', 'vx', 'vy', 'vz')} for i in range(2)]
+        sc = max([abs(v0[i][c]) for i in range(2) for c in ('vx', 'vy', 'vz')] + [1e-300]); msc = max(m)
+        if not (sc < 1e100 and msc < 1e100 and min(m) > 1e-100): return False, "degenerate model"
+        for c in ('vx', 'vy', 'vz'):
+            a = m[0] * P[0][c] + m[1] * P[1][c]; b = m[0] * v0[0][c] + m[1] * v0[1][c]
+            if abs(a - b) > 1e-9 * msc * sc: bad.append("momentum %s %r -> %r" % (c, b, a))
+        for i in range(2):
+            for c in ('x', 'y', 'z'):
+                if P[i][c] != v0[i][c]: bad.append("position %s%d moved" % (c, i))
+        d = [v0[0][c] - v0[1][c] for c in ('x', 'y', 'z')]; dv0 = [v0[0][c] - v0[1][c] for c in ('vx', 'vy', 'vz')]; dv1 = [P[0][c] - P[1][c] for c in ('vx', 'vy', 'vz')]
+        dd = sum(a * a for a in d); rp = g('r0', 1.0) + g('r1', 1.0); dot0 = sum(a * b for a, b in zip(d, dv0)); dot1 = sum(a * b for a, b in zip(d, dv1))
+        lsc = math.sqrt(dd) * sc + 1e-300
+        overl = rp * rp >= dd; appr = dot0 <= 0
+        moved = any(P[0][c] != v0[0][c] for c in ('vx', 'vy', 'vz'))
+        if overl and appr and abs(dot0) > 1e-6 * lsc:
+            if dot1 < -1e-9 * lsc: bad.append("pair still approaching after the bounce (d.dv' = %r)" % dot1)
+            if abs(dot1 + dot0) > 1e-7 * lsc: bad.append("normal relative velocity %r -> %r (must be reversed)" % (dot0, dot1))
+            ke0 = sum(m[i] * v0[i][c] ** 2 for i in range(2) for c in ('vx', 'vy', 'vz')); ke1 = sum(m[i] * P[i][c] ** 2 for i in range(2) for c in ('vx', 'vy', 'vz'))
+            if abs(ke1 - ke0) > 1e-7 * (abs(ke0) + msc * sc * sc): bad.append("kinetic energy %r -> %r" % (ke0, ke1))
+        if (not overl or dot0 > 1e-6 * lsc) and moved and (rp * rp < dd * (1 - 1e-9) or dot0 > 1e-6 * lsc): bad.append("velocities changed although the pair is %s" % ("not overlapping" if not overl else "separating"))
+        return bool(bad), "native reb_collision_resolve_hardsphere: " + ('; '.join(bad[:4]) or 'ok')
+    finally:
+        ns.free()
+
 def worker(u):
+    if u['what'] == 'hardsphere': return run_hardsphere(u)
     return run_detect(u) if u['what'] == 'detect' else run_resolve(u)
 
 def replay(data):
+    if data.get('kind') == 'hardsphere': return native_hardsphere(data['vals'])
     if data.get('kind') == 'resolve': return native_resolve(data['unit'], [tuple(g) for g in data['geo']], data['masses'], data['ws'])
     return native_detect(data['unit'], data['vals'])
 
@@ -303,11 +413,13 @@ def main():
     if tier == 'thorough': us += [dict(what='detect', mode='DIRECT', N=3)]
     for pat in ('chain', 'pair+bystander', 'interleaved') + (('cluster',) if tier == 'thorough' else ()):
         for ks in (0, 1): us.append(dict(what='resolve', pattern=pat, keep_sorted=ks))
+    us.append(dict(what='hardsphere', t_ms=30000 if tier == 'quick' else 120000, ext=(tier != 'quick')))
+    if tier == 'thorough': us.append(dict(what='hardsphere', origin=False, t_ms=120000, ext=True))
     rep = run_units(us, worker)
     code = finish(PID, tier, rep, t0,
         bounds=dict(detection_particles='2' if tier == 'quick' else '2..3', resolution_particles=3, patterns=sorted({u.get('pattern') for u in us if u.get('pattern')}), search_modes=['DIRECT', 'LINE', 'TREE']),
         assumptions=['radii >= 0, masses > 0; LINE: dt_last_done != 0 and non-zero relative velocity', 'resolution units: concrete overlap geometry, symbolic masses and one velocity component; rand_r returns an arbitrary value in [0, RAND_MAX] (every shuffle explored)', 'real arithmetic'],
-        outside=['LINETREE search, TREE search beyond 2 particles with symbolic positions / 3 particles with concrete positions and radii, periodic images', 'hard-sphere resolver', 'clusters of more than 3 particles', 'MERCURIUS/TRACE encounter maps', 'rounding'],
+        outside=['LINETREE search, TREE search beyond 2 particles with symbolic positions / 3 particles with concrete positions and radii, periodic images', 'hard-sphere resolver with a restitution callback, minimum_collision_velocity != 0 or ghost-box offsets (decided: restitution 1, no minimum velocity, no ghost box, one pair)', 'clusters of more than 3 particles', 'MERCURIUS/TRACE encounter maps', 'rounding'],
         domain_note='REAL with path forking; the shuffle order is a solver-chosen rand_r draw')
     sys.exit(code)
 
